@@ -59,6 +59,20 @@ Theorem entry_restores_refuted_builders :
   sizes (snd (host (HRun 5 (Lst Fail)) fresh)) = (0, 0, 1, 0, 0).
 Proof. vm_compute. repeat split; reflexivity. Qed.
 
+(* generators: an error that escapes a generator's own vm (thrown, runtime error, failed type check, timeout; at any
+   depth of calls and try blocks inside it) leaves that vm with an empty call stack, so it is finished: every later
+   resume returns without executing anything.  (`flat`: the generator body does not re-enter its vm through natives.) *)
+Theorem failed_generator_is_finished : forall c required, flat c = true -> forall e gv',
+  exec c (generator_vm required) = (OEscape e, gv') ->
+  stack gv' = [] /\ forall c', continue_running c' gv' = (HOk, gv').
+Proof. exact failed_generator_is_finished_thm. Qed.
+Print Assumptions failed_generator_is_finished.
+
+Example generator_fails_in_called_function :
+  let r := continue_running (Seq Nop (Try (Call 3 5 Nop) Nop)) (snd (continue_running (Call 3 5 (Call 3 4 Fail)) (generator_vm 6))) in
+  fst (continue_running (Call 3 5 (Call 3 4 Fail)) (generator_vm 6)) = HErr EThrown /\ fst r = HOk /\ stack (snd r) = [].
+Proof. vm_compute. repeat split; reflexivity. Qed.
+
 (* value_to_string runs on a spawned vm: nothing of this instance changes *)
 Theorem value_to_string_clean : forall v, host HDisplay v = (HOk, v) /\ host HDisplayFails v = (HErr EThrown, v).
 Proof. split; reflexivity. Qed.
